@@ -218,10 +218,10 @@ def header(case, proc, wd, light=False):
         s += "emit atoms off\nemit bias off\n"
     s += "module\n"
     if case["traj"] or case["seg"].startswith("restart"):
-        s += "prefix %s\n" % os.path.join(wd, "p%d" % proc)
+        s += "prefix p%d\n" % proc              # relative: esim runs in the case's directory (replays stay runnable)
     s += "config <<EOC\n" + config(case) + "EOC\n"
     if proc > 0:
-        s += "inprefix %s\n" % os.path.join(wd, "p%d" % (proc - 1))
+        s += "inprefix p%d\n" % (proc - 1)
     s += "init\n"
     return s
 
